@@ -46,6 +46,24 @@ pub proof fn lemma_psum_swap(a: Seq<f64>, ca: int, b: Seq<f64>, cb: int, i: int,
         assert(x * y == y * x) by(nonlinear_arith);
     }
 }
+
+pub open spec fn imin(a: int, b: int) -> int { if a <= b { a } else { b } }
+/// entries of rows [r0,r1) x columns [c0,c1) of c hold the first kc terms of the product sum
+pub open spec fn done(c: Seq<f64>, a: Seq<f64>, b: Seq<f64>, l: int, n: int, r0: int, r1: int, c0: int, c1: int, kc: int) -> bool {
+    forall|ii: int, jj: int| r0 <= ii < r1 && c0 <= jj < c1 && 0 <= jj < n ==> rv(#[trigger] at2(c, n, ii, jj)) == psum(a, l, false, b, n, false, ii, jj, kc)
+}
+pub proof fn lemma_blk(n: int, bs: int, q: int)
+    requires bs > 0, n >= 0, 0 <= q <= n / bs
+    ensures q * bs <= n, (n / bs + 1) * bs > n, (q + 1) * bs == q * bs + bs, q * bs >= 0
+{
+    vstd::arithmetic::div_mod::lemma_fundamental_div_mod(n, bs);
+    vstd::arithmetic::div_mod::lemma_mod_bound(n, bs);
+    assert(q * bs <= (n / bs) * bs) by(nonlinear_arith) requires 0 <= q <= n / bs, bs > 0;
+    assert((n / bs) * bs == bs * (n / bs)) by(nonlinear_arith);
+    assert((n / bs + 1) * bs == (n / bs) * bs + bs) by(nonlinear_arith);
+    assert((q + 1) * bs == q * bs + bs) by(nonlinear_arith);
+    assert(q * bs >= 0) by(nonlinear_arith) requires q >= 0, bs > 0;
+}
 '''
 
 UNWRAP_A = ('is_matrix(a, rows_a).unwrap()', 'match is_matrix(a, rows_a) { Ok(v_) => v_, Err(_) => ::core::panicking::panic("unwrap") }',
@@ -110,6 +128,58 @@ UNITS = [
     Unit('C05_matmul', 'C05', [matmul], use=[c15.is_matrix, c15.transpose], types=core.TYPES, type_spec=core.TYPE_SPEC, spec=SPEC, preludes=PRE, broadcast=BC, level='L1', rlimit=120,
          notes='slice-level matmul, all four flag combinations: length m*n and every entry equals the sum over k of op(A)[i,k]*op(B)[k,j]'),
 ]
+
+# ---------------------------------------------------------------- cache-blocked product: same contract as matmul
+_D = lambda r0, r1, c0, c1, kc: 'done(c@, a@, b@, l as int, n as int, %s, %s, %s, %s, %s)' % (r0, r1, c0, c1, kc)
+_LO = '(jj * bsize) as int'
+_HI = 'imin(jj * bsize + bsize, n as int)'
+_K0 = '(kk * bsize) as int'
+_K1 = 'imin(kk * bsize + bsize, l as int)'
+_CTX = ['c@.len() == m * n', 'a@.len() == m * l', 'b@.len() == l * n', '0 < bsize <= 0x7fff_ffff', 'm * n <= 0x7fff_ffff', 'm <= 0x7fff_ffff && n <= 0x7fff_ffff && l <= 0x7fff_ffff', 'a@.len() <= 0x7fff_ffff && b@.len() <= 0x7fff_ffff']
+_OUT = _CTX + ['jj * bsize <= n', 'C05.blocked.left_done:: ' + _D('0', 'm as int', '0', _LO, 'l as int'), 'C05.blocked.right_zero:: ' + _D('0', 'm as int', _HI, 'n as int', '0')]
+_ROWS = ['kk * bsize <= l', 'C05.blocked.rows_above:: ' + _D('0', 'i as int', _LO, _HI, _K1), 'C05.blocked.rows_below:: ' + _D('i as int + 1', 'm as int', _LO, _HI, _K0)]
+matmul_blocked = Fn(U + 'matmul_blocked', ret='c', level='L1', valid=MMV, panics={1: 'REJECT', 2: 'REJECT', 3: 'REJECT'},
+                    rewrites=[UNWRAP_A, UNWRAP_B],
+                    requires=['C05.blocked.rows:: 0 < rows_a <= 0x7fff_ffff && 0 < rows_b <= 0x7fff_ffff && 0 < bsize <= 0x7fff_ffff',
+                              'C05.blocked.range:: ' + MM + ' * ' + NN + ' <= 0x7fff_ffff && a@.len() <= 0x7fff_ffff && b@.len() <= 0x7fff_ffff'],
+                    ensures=['C05.blocked.valid:: ' + MMV,
+                             'C05.blocked.entry:: is_product(c@, a@, %s, transpose_a, b@, %s, transpose_b, %s, %s, %s)' % (CA, CB, MM, LL, NN)],
+                    pre_body='let ghost a0 = a@; let ghost b0 = b@; proof { lemma_div_facts(a@.len() as int, rows_a as int); lemma_div_facts(b@.len() as int, rows_b as int); }',
+                    loops={
+                        1: {'invariant': _CTX + ['C05.blocked.cols_done:: ' + _D('0', 'm as int', '0', '(jj * bsize) as int', 'l as int'),
+                                          'C05.blocked.cols_zero:: ' + _D('0', 'm as int', '(jj * bsize) as int', 'n as int', '0')],
+                            'body_start': 'lemma_blk(n as int, bsize as int, jj as int);',
+                            'body_end': 'lemma_blk(l as int, bsize as int, (l / bsize) as int); assert(imin(((l / bsize + 1) * bsize) as int, l as int) == l); assert(imin(jj * bsize + bsize, n as int) <= (jj + 1) * bsize);'},
+                        2: {'invariant': _OUT + ['C05.blocked.block:: ' + _D('0', 'm as int', _LO, _HI, 'imin((kk * bsize) as int, l as int)')],
+                            'body_start': 'lemma_blk(l as int, bsize as int, kk as int);',
+                            'body_end': 'assert(imin(((kk + 1) * bsize) as int, l as int) == imin(kk * bsize + bsize, l as int));'},
+                        3: {'invariant': _OUT + ['kk * bsize <= l', 'C05.blocked.rows_done:: ' + _D('0', 'i as int', _LO, _HI, _K1), 'C05.blocked.rows_todo:: ' + _D('i as int', 'm as int', _LO, _HI, _K0)]},
+                        4: {'invariant': _OUT + _ROWS + ['0 <= i < m', 'C05.blocked.row:: ' + _D('i as int', 'i as int + 1', _LO, _HI, 'k as int')],
+                            'body_start': 'lemma_idx(i as int, k as int, m as int, l as int);'},
+                        5: {'invariant': _OUT + _ROWS + ['0 <= i < m', '0 <= k < l', 'temp == at2(a@, l as int, i as int, k as int)',
+                                                         'C05.blocked.row_upd:: ' + _D('i as int', 'i as int + 1', _LO, 'j as int', 'k as int + 1'),
+                                                         'C05.blocked.row_old:: ' + _D('i as int', 'i as int + 1', 'j as int', _HI, 'k as int')],
+                            'body_ghost': 'let ghost pre_c = c@;',
+                            'body_start': 'lemma_idx(i as int, j as int, m as int, n as int); lemma_idx(k as int, j as int, l as int, n as int);',
+                            'body_end': ('assert forall|ii: int, jj2: int| 0 <= ii < m && 0 <= jj2 < n && !(ii == i && jj2 == j) implies #[trigger] at2(c@, n as int, ii, jj2) == at2(pre_c, n as int, ii, jj2) by { lemma_idx(ii, jj2, m as int, n as int); if ii * n + jj2 == i * n + j { lemma_idx_inj(ii, jj2, i as int, j as int, n as int); } } '
+                                         'assert(at2(c@, n as int, i as int, j as int) == f_add(at2(pre_c, n as int, i as int, j as int), f_mul(temp, at2(b@, n as int, k as int, j as int)))); '
+                                         'assert(rv(at2(pre_c, n as int, i as int, j as int)) == psum(a@, l as int, false, b@, n as int, false, i as int, j as int, k as int)); '
+                                         'assert(psum(a@, l as int, false, b@, n as int, false, i as int, j as int, k as int + 1) == psum(a@, l as int, false, b@, n as int, false, i as int, j as int, k as int) + opa(a@, l as int, false, i as int, k as int) * opa(b@, n as int, false, k as int, j as int)); '
+                                         'assert(rv(at2(c@, n as int, i as int, j as int)) == psum(a@, l as int, false, b@, n as int, false, i as int, j as int, k as int + 1));')},
+                    },
+                    hints=[('let mut c = vec![0.; m * n];', 'before',
+                            'proof { lemma_mul_div(rows_a as int, cols_a as int); lemma_mul_div(rows_b as int, cols_b as int); assert(m * l == a0.len()); assert(l * n == b0.len()); }'),
+                           ('for jj in 0..(n / bsize + 1)', 'before',
+                            'proof { assert(a@.len() == m * l); assert(b@.len() == l * n); '
+                            'assert forall|ii: int, kk: int| 0 <= ii < m && 0 <= kk < l implies rv(#[trigger] at2(a@, l as int, ii, kk)) == opa(a0, cols_a as int, transpose_a, ii, kk) by { lemma_idx(ii, kk, m as int, l as int); if transpose_a { assert(at2(a@, rows_a as int, ii, kk) == at2(a0, cols_a as int, kk, ii)); } else { assert(a@[ii * l + kk] == a0[ii * l + kk]); } } '
+                            'assert forall|kk: int, jj: int| 0 <= kk < l && 0 <= jj < n implies rv(#[trigger] at2(b@, n as int, kk, jj)) == opa(b0, cols_b as int, transpose_b, kk, jj) by { lemma_idx(kk, jj, l as int, n as int); if transpose_b { assert(at2(b@, rows_b as int, kk, jj) == at2(b0, cols_b as int, jj, kk)); } else { assert(b@[kk * n + jj] == b0[kk * n + jj]); } } '
+                            'assert(is_eff(a@, l as int, a0, cols_a as int, transpose_a, m as int)); assert(is_eff(b@, n as int, b0, cols_b as int, transpose_b, l as int)); '
+                            'assert forall|ii: int, jj: int| 0 <= ii < m && 0 <= jj < n implies rv(#[trigger] at2(c@, n as int, ii, jj)) == 0real by { lemma_idx(ii, jj, m as int, n as int); } '
+                            'assert(0 * bsize == 0); }'),
+                           ('\n            c\n', 'replace',
+                            '\n proof { lemma_blk(n as int, bsize as int, (n / bsize) as int); assert forall|ii: int, jj: int| 0 <= ii < m && 0 <= jj < n implies rv(#[trigger] at2(c@, n as int, ii, jj)) == psum(a0, cols_a as int, transpose_a, b0, cols_b as int, transpose_b, ii, jj, l as int) by { lemma_psum_eff(a@, b@, l as int, n as int, a0, cols_a as int, transpose_a, b0, cols_b as int, transpose_b, m as int, ii, jj, l as int); } }\n c\n')])
+UNITS.append(Unit('C05_blocked', 'C05', [matmul_blocked], use=[c15.is_matrix, c15.transpose], types=core.TYPES, type_spec=core.TYPE_SPEC, spec=SPEC, preludes=PRE, broadcast=BC, level='L1', rlimit=300,
+                  notes='cache-blocked matmul (five nested loops, any block size > 0): same contract as matmul - length m*n and every entry equals the sum over k of op(A)[i,k]*op(B)[k,j]'))
 
 # ---------------------------------------------------------------- Dot trait: Matrix . Matrix (16 methods)
 DOT_TRAIT = r'''
